@@ -14,7 +14,7 @@
    to-all and not removed since, the i-th subscription of the history having id i.
    Data races are NOT the subject of these theorems (race detector, see the harness). *)
 From Coq Require Import Permutation Sorted.
-From GoSse Require Import Base Callbacks CallbacksProofs CallbacksTheorems.
+From GoSse Require Import Base Callbacks CallbacksProofs CallbacksTheorems CallbacksLts CallbacksLtsProofs.
 Local Open Scope nat_scope.
 
 (* For every history and every Dispatch in it: the invoked callbacks are, as a multiset,
@@ -73,6 +73,45 @@ Theorem C13_order_log_complete :
     In (j, e) (inv_log ops) <->
     exists c, nth_error (trace reg_empty ops) j = Some (OInvoked c) /\ In e c.
 Proof. exact inv_log_complete. Qed.
+
+(* ---- all schedules ---------------------------------------------------------------------------
+   theories/CallbacksLts.v: the registry with its lock as a transition system.  dispatch holds the
+   read lock until after the callbacks have run; a subscription or a remover call of ANOTHER
+   goroutine is one atomic step [AOp] enabled only while no dispatch holds the lock; a dispatch
+   is [ABegin t], one [AInvoke] per callback, [AEnd].  [crun cs_init acts = Some st] says the
+   schedule [acts] is possible; the theorems hold for every possible schedule. *)
+
+(* Under every schedule the registry and the invocations performed are exactly those of the
+   atomic history the schedule amounts to ([proj acts]: operations and events in the order in
+   which they took effect) - so C13_routing, C13_remove*, C13_order hold for every interleaving;
+   in the middle of a dispatch: the log plus what that dispatch still has to invoke. *)
+Theorem C13_schedules_atomic :
+  forall acts st,
+    crun cs_init acts = Some st ->
+    c_reg st = run_ops reg_empty (proj acts) /\
+    c_log st ++ map (fun e => (c_ev st, e)) (pending_list st) = tag_events 0 (trace reg_empty (proj acts)).
+Proof. exact schedule_is_atomic_history. Qed.
+
+(* Under every schedule: once a remover has returned, no invocation performed afterwards is of
+   its subscription - not by the dispatch it had to wait for, not by any later one. *)
+Theorem C13_schedules_remove_final :
+  forall a1 h a2 st,
+    In h (issued (trace reg_empty (proj a1))) ->
+    crun cs_init (a1 ++ AOp (Remove h) :: a2) = Some st ->
+    exists mid new, crun cs_init (a1 ++ [AOp (Remove h)]) = Some mid /\
+                    c_log st = c_log mid ++ new /\
+                    Forall (fun x : nat * sub => fst (snd x) <> h) new.
+Proof. exact schedule_remove_final. Qed.
+
+(* non-vacuity of the schedules: a remover cannot take effect in the middle of a dispatch
+   (the step is not enabled), it can right after it *)
+Example C13_witness_remover_waits :
+  crun cs_init [AOp (SubEvent [120] 1); AOp (SubAll 2); ABegin [120]; AInvoke; AOp (Remove (HAll 1))]%N = None
+  /\ option_map c_log
+       (crun cs_init [AOp (SubEvent [120] 1); AOp (SubAll 2); ABegin [120]; AInvoke; AInvoke; AEnd;
+                      AOp (Remove (HAll 1)); ABegin [120]; AInvoke; AEnd]%N)
+     = Some [(1, (HEvent [120%N] 0, 1%N)); (1, (HAll 1, 2%N)); (2, (HEvent [120%N] 0, 1%N))].
+Proof. vm_compute. split; reflexivity. Qed.
 
 (* non-vacuity: the stale-remover history of the kind the tests never run.
    A subscribes to "x" (id 0), is removed, B subscribes to "x" (id 1), A's remover is
